@@ -313,7 +313,14 @@ func c18Run(k c18Case, st *c18Stats) (int, string) {
 	}
 	lineOff := func(where string) string {
 		if m.atEnd() {
-			rd.LineOffset() // must not panic
+			g := rd.LineOffset() // must not panic
+			// a source reader that has consumed an unterminated last line still stands on that line: the column is the width
+			// of the line (also after the position was saved there, the reader moved away and was restored)
+			if !k.Block && m.line < len(lines) && m.pos.Start == len(src) && len(src) > 0 && src[len(src)-1] != '\n' {
+				if w := m.lineOffset(); g != w {
+					return fmt.Sprintf("%s: LineOffset() at the end of an unterminated last line = %d, model %d", where, g, w)
+				}
+			}
 			return ""
 		}
 		if g, w := rd.LineOffset(), m.lineOffset(); g != w {
